@@ -1,4 +1,5 @@
 use std::collections::HashSet;
+use syn::ext::IdentExt;
 use syn::visit_mut::VisitMut;
 
 #[derive(Copy, Clone, Eq, PartialEq)]
@@ -21,38 +22,33 @@ impl ParamStatus {
 }
 
 pub fn fix_fn_param_idents(sig: &mut syn::Signature) {
-    if fix_ident_conflicts(sig).is_ok() {
+    if simplify_pat_idents(sig).is_ok() {
+        fix_ident_conflicts(sig);
         return;
     }
 
     if lift_inner_pat_idents(sig).is_ok() {
+        fix_ident_conflicts(sig);
         return;
     }
 
     autogenerate_for_non_idents(sig);
+    fix_ident_conflicts(sig);
 }
 
-fn fix_ident_conflicts(sig: &mut syn::Signature) -> ParamStatus {
+/// Reduce `mut x`, `ref x` and `x @ ..` bindings to the plain identifier `x`:
+/// binding modes and sub-patterns are not allowed (and not meaningful) in the generated signatures.
+fn simplify_pat_idents(sig: &mut syn::Signature) -> ParamStatus {
     let mut status = ParamStatus::Ok;
-    let fn_ident_string = sig.ident.to_string();
 
     for fn_arg in sig.inputs.iter_mut() {
         let arg_status = match fn_arg {
             syn::FnArg::Receiver(_) => ParamStatus::Ok,
             syn::FnArg::Typed(pat_type) => match pat_type.pat.as_mut() {
                 syn::Pat::Ident(param_ident) => {
-                    // `mut x`, `ref x` and `x @ ..` become the plain identifier `x`: binding modes and
-                    // sub-patterns are not allowed (and not meaningful) in the generated signatures
                     param_ident.by_ref = None;
                     param_ident.mutability = None;
                     param_ident.subpat = None;
-
-                    if param_ident.ident == fn_ident_string {
-                        param_ident.ident = syn::Ident::new(
-                            &format!("{}_", param_ident.ident),
-                            param_ident.ident.span(),
-                        );
-                    }
 
                     ParamStatus::Ok
                 }
@@ -64,6 +60,40 @@ fn fix_ident_conflicts(sig: &mut syn::Signature) -> ParamStatus {
     }
 
     status
+}
+
+/// A parameter named like the function itself would shadow the function in the delegating call.
+/// Rename it, taking care not to collide with any other parameter.
+fn fix_ident_conflicts(sig: &mut syn::Signature) {
+    let fn_ident = sig.ident.clone();
+
+    let mut taken_idents: HashSet<String> = sig
+        .inputs
+        .iter()
+        .filter_map(|fn_arg| match fn_arg {
+            syn::FnArg::Receiver(_) => None,
+            syn::FnArg::Typed(pat_type) => match pat_type.pat.as_ref() {
+                syn::Pat::Ident(pat_ident) => Some(pat_ident.ident.unraw().to_string()),
+                _ => None,
+            },
+        })
+        .collect();
+
+    for fn_arg in sig.inputs.iter_mut() {
+        if let syn::FnArg::Typed(pat_type) = fn_arg {
+            if let syn::Pat::Ident(param_ident) = pat_type.pat.as_mut() {
+                if param_ident.ident == fn_ident {
+                    // (format_ident strips the `r#` of raw identifiers)
+                    let mut new_ident = quote::format_ident!("{}_", param_ident.ident);
+                    while taken_idents.contains(&new_ident.to_string()) {
+                        new_ident = quote::format_ident!("{}_", new_ident);
+                    }
+                    taken_idents.insert(new_ident.to_string());
+                    param_ident.ident = new_ident;
+                }
+            }
+        }
+    }
 }
 
 fn lift_inner_pat_idents(sig: &mut syn::Signature) -> ParamStatus {
